@@ -52,6 +52,52 @@ func canonFP(arr, off, n *Term, depth int) *Term {
 	return leafFP(arr, off, n)
 }
 
+// sealRec: what a Seal call encrypted, keyed by the id of its sealbytes term
+// (AEAD correctness: Open on exactly that ciphertext under the same key, nonce
+// and associated data succeeds and returns that plaintext).
+type sealRec struct {
+	key, nonce, ad      *Term
+	ptArr, ptOff, ptLen *Term
+}
+
+var sealInfo = map[int]sealRec{}
+
+// resolveCopy follows whole-range copies: the bytes arr[off, off+n) are the
+// bytes src[soff, soff+n) of the returned array.
+func resolveCopy(arr, off, n *Term, depth int) (*Term, *Term) {
+	for depth < 12 && arr.op == "copyarr" {
+		dst, doff, src, soff, cn := arr.args[0], arr.args[1], arr.args[2], arr.args[3], arr.args[4]
+		switch {
+		case doff == off && cn == n:
+			arr, off = src, soff
+		case doff == BVAdd(off, n):
+			arr = dst // the copy lies entirely after the range
+		case BVAdd(doff, cn) == off:
+			arr = dst // the copy lies entirely before the range
+		default:
+			return arr, off
+		}
+		depth++
+	}
+	return arr, off
+}
+
+type copySrc struct {
+	guard, arr, off *Term
+}
+
+// resolveCopyG is resolveCopy through if-then-else arrays (merged states): one
+// guarded source per branch.
+func resolveCopyG(guard, arr, off, n *Term, depth int) []copySrc {
+	a, o := resolveCopy(arr, off, n, 0)
+	if a.op == "ite" && depth < 4 {
+		c := a.args[0]
+		out := resolveCopyG(And(guard, c), a.args[1], o, n, depth+1)
+		return append(out, resolveCopyG(And(guard, Not(c)), a.args[2], o, n, depth+1)...)
+	}
+	return []copySrc{{guard, a, o}}
+}
+
 // leafFP: fingerprint of a byte range that is not a copy. Short constant-length
 // ranges are fingerprinted through their packed contents (so that two arrays
 // with equal bytes in the range have equal fingerprints by congruence); longer
@@ -213,6 +259,8 @@ func (fr *Frame) cryptoInvoke(cc *ssa.CallCommon, recv Value, args []Value, pc *
 		nl := BVAdd(BVAdd(dst.Len, pt.Len), BV(16, 64))
 		out := ex.allocSlice(st, byteT, nl, nl, pc, "seal")
 		body := ufBytes("sealbytes", key, ex.pack(st, nonce, 12), ex.fp(st, ad), ex.fp(st, pt))
+		sealInfo[body.id] = sealRec{key: key, nonce: ex.pack(st, nonce, 12), ad: ex.fp(st, ad),
+			ptArr: ex.sliceArr(st, pt, 0, SBV(8)), ptOff: pt.Off, ptLen: pt.Len}
 		arr := ex.sliceArr(st, out, 0, SBV(8))
 		arr = CopyArr(arr, BV(0, 64), ex.sliceArr(st, dst, 0, SBV(8)), dst.Off, dst.Len)
 		arr = CopyArr(arr, dst.Len, body, BV(0, 64), BVAdd(pt.Len, BV(16, 64)))
@@ -238,6 +286,32 @@ func (fr *Frame) cryptoInvoke(cc *ssa.CallCommon, recv Value, args []Value, pc *
 		nl := BVAdd(dst.Len, ptLen)
 		out := ex.allocSlice(st, byteT, nl, nl, pc, "open")
 		body := ufBytes("openbytes", key, ex.pack(st, nonce, 12), ex.fp(st, ad), ex.fp(st, ct))
+		// AEAD correctness (not an idealisation): opening exactly the output of a
+		// Seal under the same key, nonce and associated data succeeds and yields
+		// the plaintext that was sealed
+		for _, cs := range resolveCopyG(True, ex.sliceArr(st, ct, 0, SBV(8)), ct.Off, ct.Len, 0) {
+			if os_debug {
+				fmt.Printf("OPEN ct resolves to %s at %.60s under %.60s\n", cs.arr.op, cs.off.String(), cs.guard.String())
+				if cs.arr.op == "copyarr" {
+					a := cs.arr
+					fmt.Printf("   want off=%.40s n=%.60s ; copyarr dst=%s doff=%.60s src=%s soff=%.40s cn=%.90s\n", cs.off.String(), ct.Len.String(), a.args[0].op, a.args[1].String(), a.args[2].op, a.args[3].String(), a.args[4].String())
+				}
+			}
+			if cs.arr.op != "sealbytes" || !cs.off.lit || cs.off.val.Sign() != 0 {
+				continue
+			}
+			rec, known := sealInfo[cs.arr.id]
+			if !known {
+				continue
+			}
+			match := And(cs.guard, Eq(key, rec.key), Eq(ex.pack(st, nonce, 12), rec.nonce), Eq(ex.fp(st, ad), rec.ad), Eq(ct.Len, BVAdd(rec.ptLen, BV(16, 64))))
+			i := BoundVar("b.rt", SBV(64))
+			q := Quant("forall", i, Implies(And(BVSle(BV(0, 64), i), BVSlt(i, rec.ptLen)),
+				Eq(Select(body, i), SelectA(rec.ptArr, BVAdd(rec.ptOff, i)))))
+			instQuant[q.id] = true
+			ex.assume(pc, Implies(match, And(okB, q)))
+			ex.ctx.usedModels["AEAD correctness: Open(k, n, ad, Seal(k, n, ad, p)) succeeds and returns p"]++
+		}
 		arr := ex.sliceArr(st, out, 0, SBV(8))
 		arr = CopyArr(arr, BV(0, 64), ex.sliceArr(st, dst, 0, SBV(8)), dst.Off, dst.Len)
 		arr = CopyArr(arr, dst.Len, body, BV(0, 64), ptLen)
